@@ -447,7 +447,20 @@ Fixpoint run_ops (mods : list module) (wires : list wire) (hs : nat -> option ha
 (* ---------------------------------------------------------------------- *)
 (* scripted handlers and canonical observations for the correspondence     *)
 
-Inductive hscript := HSNone | HSRaise | HSRet (items : list (nat * oval)).
+(* what a scripted handler puts under a key of the dict it returns:
+   - [SV v]: a value built afresh in this invocation (its payload depends on the delivered payloads);
+   - [SFwd p]: the very TypedValue the module received on its input port [p], handed back untouched --
+     a relay (router, logger, gate).  Its label is whatever label that value carries, which may be
+     strictly above the input port's (an over-labelled external input, a downgrading wire).  The raw
+     value 0 when the module has no such input port;
+   - [SConst t]: a TypedValue built once, before anything ran, and returned as it is wherever a script
+     names it: one object under several keys, by several modules, in several executions (the harness
+     also hands the same object in as an external input).
+   A TypedValue is a frozen dataclass and the executor never asks which object it is looking at
+   (`is`, `id()`): the model has no object identities, a forwarded or shared object is the [Lab] of
+   its contents. *)
+Inductive sval := SV (v : oval) | SFwd (p : nat) | SConst (t : tval).
+Inductive hscript := HSNone | HSRaise | HSRet (items : list (nat * sval)).
 
 (* sum over the present inputs of (port index + 1) * payload: makes every output
    payload depend on which value reached which port *)
@@ -464,12 +477,19 @@ Definition add_payload (s : Z) (v : oval) : oval :=
   | RawClaim d i x => RawClaim d i (x + s)
   end.
 
+Definition interp_sval (r : row) (s : sval) : oval :=
+  match s with
+  | SV v => add_payload (row_sum 1 r) v
+  | SFwd p => match nth_error r p with Some (Some t) => Lab t | _ => Raw 0 end
+  | SConst t => Lab t
+  end.
+
 Definition interp_h (s : hscript) : option handler :=
   match s with
   | HSNone => None
   | HSRaise => Some (fun _ => HRaise)
   | HSRet items =>
-      Some (fun r => HRet (map (fun kx => (fst kx, add_payload (row_sum 1 r) (snd kx))) items))
+      Some (fun r => HRet (map (fun kx => (fst kx, interp_sval r (snd kx))) items))
   end.
 
 Definition cmodule := (list ptype * list ptype * list cap * hscript)%type.
